@@ -267,6 +267,17 @@ func (g *ExprGen) Expr(kind string, d int) string {
 		return g.pickS("intlit", "0", "1", "2", "5", "10", "010", "0x10", "0o17", "0b11", "1_0", "'a'", "100")
 	case "strlit":
 		return g.pickS("strlit", `""`, `"a"`, `"abc"`, `"a|b"`, "`x`", `"%s"`, `"'%s'"`, `"\"%s\""`, `"."`, `"/"`, `"%d%%"`, `"%v %"`)
+	case "regex":
+		rg := &RegexGen{T: g.T}
+		for try := 0; try < 4; try++ {
+			if pat, ok := rg.Pattern(); ok {
+				if rapid.Bool().Draw(g.T, "rawRegex") && !strings.Contains(pat, "`") {
+					return "`" + pat + "`"
+				}
+				return strconv.Quote(pat)
+			}
+		}
+		return "`a+`"
 	case "size":
 		return g.pickS("size", "1", "2", "8", "15", "16", "17", "20", "64", "65", "200", "1000")
 	case "ntype":
